@@ -262,6 +262,11 @@ class C01(E1Check):
         @context_teardown
         async def genfn(label: str, spec: dict) -> Any:
             log("gen-setup", label)
+            # the part before the yield registers a callback of its own (as a start() that publishes a resource with a teardown
+            # callback does): it was registered BEFORE the generator's finalizer, so it runs after the part behind the yield
+            st["ctx"].add_teardown_callback(make_plain(label + "p"))
+            st["model"].append(label + "p")
+            log("reg", label + "p")
             exc = yield
             cb_body_sync(label, spec, (exc,))
             try:
@@ -415,7 +420,7 @@ class C01(E1Check):
         while stack:
             x = stack.pop()
             expected.append(x)
-            if not x.endswith("n") and specs[x]["nest"]:
+            if not x.endswith(("n", "p")) and specs[x]["nest"]:
                 stack.append(x + "n")
         started = st["started"]
         if started != expected:
